@@ -11,16 +11,19 @@ import (
 
 	"verif/engine"
 	"verif/lib/circ"
+	"verif/ref"
 )
 
 var (
 	bgvSmall = circ.BGVSpec{LogN: 4, NQ: 7, QBits: 36, NP: 2, PBits: 36, T: 97}
 	bgvLarge = circ.BGVSpec{LogN: 5, NQ: 7, QBits: 55, NP: 2, PBits: 56, T: 65537}
+	// plaintext modulus just above 2^53 (the float64 mantissa), 60-bit Q primes
+	bgvBigT = circ.BGVSpec{LogN: 4, NQ: 5, QBits: 60, NP: 1, PBits: 61, T: ref.PrimesNear(1<<53, 64, 1, false)[0]}
 )
 
 func scenarios(tier string) []engine.Scenario {
 	var scs []engine.Scenario
-	exhaustDeg, maxDeg := 6, 31
+	exhaustDeg, maxDeg := 5, 31
 	if tier == "thorough" {
 		exhaustDeg, maxDeg = 8, 63
 	}
@@ -48,6 +51,20 @@ func scenarios(tier string) []engine.Scenario {
 			}
 		}
 	}
+	// plaintext modulus above 2^53: every mask up to degree 3, structured masks up to degree 7, all kinds and entry points
+	{
+		bigShapes := shapesFor(3, 7)
+		for lo := 0; lo < len(bigShapes); lo += chunk {
+			hi := lo + chunk
+			if hi > len(bigShapes) {
+				hi = len(bigShapes)
+			}
+			cfg := &bgvCfg{spec: bgvBigT, shapes: bigShapes[lo:hi]}
+			name := fmt.Sprintf("%s/std/shapes%03d-%03d", bgvBigT.String(), lo, hi-1)
+			scs = append(scs, engine.Scenario{Name: name, Bound: bound, Fn: func(c *engine.Chooser) { bgvLeaf(c, name, cfg) }})
+		}
+	}
+	scs = append(scs, engine.Scenario{Name: "vector-validation", Bound: -1, Fn: vectorValidationLeaf})
 	// dedicated scenarios of the known-defect input classes (classes.go)
 	for _, inv := range []bool{false, true} {
 		inv := inv
@@ -91,7 +108,7 @@ func main() {
 		Level: "exploration",
 		Rule: "Polynomial evaluation: one scenario = scheme/mode/parameter set × chunk of (formal degree, coefficient mask) shapes; a leaf = shape × kind of polynomial object " +
 			"(bignum.Polynomial, Polynomial, lazy Polynomial, PolynomialVector with 4 slot mappings) × (entry point, input level from need-1 to max, input scale, target scale, declared parity, basis/interval) " +
-			"under the stated deviation bound. Shapes: EVERY mask for degree <=6 (quick) / <=8 (thorough), structured masks up to degree 31 / 63. " +
+			"under the stated deviation bound. Shapes: EVERY mask for degree <=5 (quick) / <=8 (thorough), structured masks up to degree 31 / 63. " +
 			"Oracle: Horner mod t (BGV) / big.Float evaluation with a worst-case ε (CKKS); levels consumed == ceil(log2(deg+1)) (0 in scale-invariant mode), output scale == target scale, " +
 			"need-1 levels refused with an error. bignum: Evaluate/ChangeOfBasis/Factorize against own big.Float arithmetic. Composite circuits: grid of inputs on the stated domain.",
 		Assumptions: []string{
@@ -123,6 +140,7 @@ func expect(tier string) []string {
 	for _, n := range opNames {
 		e = append(e, "composite="+n)
 	}
+	e = append(e, "bgv-coeffs=small", "bgv-coeffs=edge", "bgv-coeffs=unreduced", "bgv-t=>2^53", "vector-validation=refused")
 	for _, l := range mod1Literals(10) {
 		e = append(e, "mod1="+l.name)
 	}
